@@ -268,6 +268,21 @@ func (a *Analysis) OrderCheck() []Finding {
 	for k, n := range cnt {
 		uniq[k] = n == 1
 	}
+	// Resubscribe re-issues established subscriptions one filter per SUBSCRIBE: a single-filter request whose
+	// (filter, QoS) also occurs in another Subscribe call cannot be told apart from that re-subscription
+	fq := map[string]int{}
+	for _, s := range a.Order {
+		if s.Step.Op == "sub" {
+			for _, x := range s.Step.Subs {
+				fq[fmt.Sprintf("S:%s@%d", x.F, x.Q)]++
+			}
+		}
+	}
+	for k, n := range fq {
+		if n > 1 {
+			uniq[k] = false
+		}
+	}
 	// R1: per connection, PUBLISH attempts in non-decreasing submission order
 	last := map[int]int{}
 	lastKey := map[int]string{}
